@@ -15,7 +15,7 @@ CLAIMS = {
              "every element-total left by a mutator in countingbloom.py/countminsketch.py is shown to stay inside the "
              "typecode / footer-slot range on every syntactic path, for all amounts num_els >= 1; a pinned counting-Bloom "
              "cell is never decremented; the constants a cell or the total can be pinned at are exactly the limits of that storage. Decides the 'no OverflowError, no half-updated call, value pinned' clauses for "
-             "all inputs at once; does not decide the lower bound 0 of counting-Bloom cells under over-removal.",
+             "all inputs at once; does not decide the lower bound 0 of counting-Bloom cells under over-removal. The lower limit 0 of the unsigned counting-Bloom cells and of the unsigned element total is decided too (no waiver for decrements any more: a cell is lowered by cell - min(amount, cell), the total is pinned with max(.., 0)) - written from the repaired defects D17 / D18.",
         design_ref="DESIGN.md section 4 C16, section 3 E5"),
     "C19": dict(
         technique="interprocedural write-effect (mod-set) analysis per concrete class; clear-vs-mutator field-set comparison",
@@ -44,7 +44,7 @@ CLAIMS = {
              "index, mask and loop domain that add_alt sets and only a zero probe yields False; add/check hash with the same call; "
              "the expanding filter scans all sub-filters, never removes one, inserts into the newest, builds all with the same "
              "parameters; union is cell-wise OR over the full range; every loader path takes the payload from its input. Decides "
-             "these for all inputs/histories at once; does not decide determinism of user hash callables.",
+             "these for all inputs/histories at once; does not decide determinism of user hash callables. check() calls the hashing strategy with exactly the arguments add() uses (a probe with another depth is accepted only under an identity test with a shipped strategy).",
         design_ref="DESIGN.md section 4 C01"),
     "C12": dict(
         technique="normal-form comparison of combine expressions; full-range loop-domain rule against allocation lengths",
@@ -59,7 +59,7 @@ CLAIMS = {
              "similarity test the second (None) before any allocation; the similarity test compares hash count, bit count and probe "
              "hash; intersection keeps exactly positions set in both (a&b / both-non-zero table) over the full range; Jaccard is "
              "|both|/|either| over the full range with 1.0 for an empty union (symmetric by normal form); join refuses foreign types "
-             "and mismatched geometry/hash before any store; no operation writes its operand. Does not decide the numeric value.",
+             "and mismatched geometry/hash before any store; no operation writes its operand. Does not decide the numeric value. The counting intersection / Jaccard index may also be written in one expression over zip of all cells (V if <both in use> else 0; sum(1 for ... if ...)): whether a test means both / either non-zero is decided by a truth table over sample cell values.",
         design_ref="DESIGN.md section 4 C13"),
     "C02": dict(
         technique="normal-form agreement of cell-index expressions across add/remove/check; per-branch stored-vs-reported comparison",
